@@ -356,7 +356,7 @@ func runLexer(def lexer.Definition, names map[lexer.TokenType]string, in string,
 	select {
 	case s := <-done:
 		return s
-	case <-time.After(10 * time.Second):
+	case <-time.After(3 * time.Second):
 		return "HANG"
 	}
 }
@@ -408,6 +408,7 @@ func lexRun(args []string) error {
 	w := bufio.NewWriter(os.Stdout)
 	defer w.Flush()
 	n, bad := 0, 0
+	hangs := map[string]int{}
 	for sc.Scan() {
 		p := strings.SplitN(sc.Text(), "|", 4)
 		if len(p) != 4 {
@@ -433,7 +434,13 @@ func lexRun(args []string) error {
 			continue
 		}
 		n++
+		if hangs[p[0]] >= 2 {
+			continue // the definition hangs: its remaining inputs are not run (leaked goroutines spin)
+		}
 		got := runLexer(def, names[p[0]], raw.decodeInput(p[1]), extra, "f.txt")
+		if got == "HANG" {
+			hangs[p[0]]++
+		}
 		if got != p[3] {
 			bad++
 			if bad <= 300000 {
